@@ -126,6 +126,25 @@ impl Runner for BashRunner {
         // placeholder within either of them is being replaced
         let state_directory_str =
             shell_escape::unix::escape(self.state_directory.to_string_lossy()).to_string();
+        let mut environment = testcase
+            .config
+            .environment
+            .iter()
+            .filter(|(key, _)| {
+                !key.is_empty()
+                    && !key.starts_with(|ch: char| ch.is_ascii_digit())
+                    && key.chars().all(|ch| ch.is_ascii_alphanumeric() || ch == '_')
+            })
+            .map(|(key, value)| {
+                format!(
+                    "export {}={}",
+                    key,
+                    shell_escape::unix::escape(value.into())
+                )
+            })
+            .collect::<Vec<_>>();
+        environment.sort();
+        let environment = environment.join("\n");
         let (head, tail) = BASH_TEMPLATE
             .split_once("{shell_expression}")
             .expect("template contains the shell expression placeholder");
@@ -140,6 +159,7 @@ impl Runner for BashRunner {
                     "1"
                 },
             )
+            .replace("{environment}", &environment)
             .replace("{state_directory}", &state_directory_str);
         let expression = format!("{head}{}{tail}", &testcase.shell_expression);
         trace!("compiled expression {}", &expression);
